@@ -69,8 +69,23 @@ inductive LExpr where
   | right (x : RA) (op : BOp) (e : LExpr)
   deriving Repr, DecidableEq, Inhabited
 
+/-! expression trees (stage 10): any nesting of the five operators -/
+inductive GExpr where
+  | atom (a : RA)
+  | bin (l : GExpr) (op : BOp) (r : GExpr)
+  deriving Repr, DecidableEq, Inhabited
+
+/-- where the value of a sub-expression is after its code ran -/
+inductive ET where
+  | atm (a : RA)        -- nowhere yet: the operand itself
+  | acc                 -- in the accumulator
+  | tmp                 -- in the scratch cell
+  deriving Repr, DecidableEq, Inhabited
+
+
 inductive RStmt where
   | lin (v : LV) (e : LExpr)                       -- `v = e` (stage 8)
+  | expr (v : LV) (e : GExpr)                      -- `v = e` for an expression tree (stage 10)
   | asg (v : LV) (a : RA)
   | bin (v : LV) (op : BOp) (a b : RA)
   | opasg (v : LV) (op : BOp) (a : RA)
@@ -91,7 +106,7 @@ def RA.isReg : RA → Bool
   | _ => false
 
 def RStmt.target : RStmt → LV
-  | .asg v _ | .bin v _ _ _ | .opasg v _ _ | .inc v | .dec v | .chain v _ _ _ _ | .lin v _ => v
+  | .asg v _ | .bin v _ _ _ | .opasg v _ _ | .inc v | .dec v | .chain v _ _ _ _ | .lin v _ | .expr v _ => v
   | .asgW s _ | .binW s _ _ _ | .opasgW s _ _ => .var s
 
 /-- `X | 0`, `Y | 0`: generate_arithm returns the register itself -/
@@ -105,13 +120,6 @@ def LExpr.ok : LExpr → Bool
       !(orZeroReg0 op (if op.commutes && a.isConst && !b.isConst then b else a) (if op.commutes && a.isConst && !b.isConst then a else b))
   | .left e _ _ => e.ok
   | .right _ _ e => e.ok
-
-def RInFragment : RStmt → Bool
-  | .lin _ e => e.ok
-  | .bin _ _ a b => !(a.isConst && b.isConst)
-  | .binW _ _ a b => !(a.isConst && b.isConst)
-  | .chain _ a _ b1 ops => !(a.isConst && b1.isConst) && !ops.isEmpty
-  | _ => true
 
 /-- the scratch cell -/
 def tmp : Atom := .var "cctmp"
@@ -231,7 +239,137 @@ def linCode {α : Type} (none : α) (r : Atom → α) : LExpr → List (Mn × α
     linCode none r e ++
       (if op == .sub then [(.STA, r tmp)] ++ loadA none r x ++ [(.SEC, none), (.SBC, r tmp)] else opCode none r op x)
 
+/-! ### expression trees (stage 10): port of generate_expr / generate_arithm -/
+
+/-- the generator's `acc_in_use` / `tmp_in_use` -/
+structure ES where
+  acc : Bool := false
+  tmpU : Bool := false
+  deriving Repr, DecidableEq, Inhabited
+
+def ET.isConst : ET → Bool
+  | .atm a => a.isConst
+  | _ => false
+
+def ET.isReg : ET → Bool
+  | .atm a => a.isReg
+  | _ => false
+
+/-- operand order of generate_arithm: `−` keeps it; otherwise a constant goes right, and so does whatever is not
+    in the accumulator when the other operand is -/
+def order (op : BOp) (l r : ET) : ET × ET :=
+  if op == .sub then (l, r)
+  else if l.isConst then (r, l)
+  else match r with
+    | .acc => (r, l)
+    | _ => (l, r)
+
+/-- the operand the operation is applied with -/
+def opnd : ET → RA
+  | .atm a => a
+  | _ => .of tmp
+
+/-- what generate_arithm decides for one operator, from the generator state and where the operands are -/
+structure Plan where
+  left : ET             -- the operand that goes to the accumulator
+  right2 : ET           -- the operand the operation is applied with (never `.acc`)
+  spill : Bool          -- the right operand was in the accumulator: `STA cctmp` first
+  accL : Bool           -- the accumulator holds an outer operand at that point
+  st' : ES
+  deriving Repr, DecidableEq
+
+/-- `PHA` before the left operand is loaded, and the result handed over in the scratch cell (`STA cctmp ; PLA`) -/
+def Plan.save (p : Plan) : Bool := p.accL && p.left != .acc
+
+/-- the decisions of generate_arithm (total: `planOK` says whether the generator goes through with them) -/
+def mkPlan (st : ES) (l : ET) (op : BOp) (rt : ET) : Plan :=
+  let p := order op l rt
+  let left := p.1
+  let right := p.2
+  let spill := right == .acc
+  let right2 : ET := if spill then .tmp else right
+  let accL : Bool := if spill then false else st.acc
+  let tmp1 : Bool := if spill then true else st.tmpU
+  let save := accL && left != .acc
+  let tmp2 : Bool := if left == .tmp then false else tmp1
+  let tmp3 : Bool := if right2 == .tmp then false else tmp2
+  { left := left, right2 := right2, spill := spill, accL := accL, st' := { acc := true, tmpU := if save then true else tmp3 } }
+
+def planOK (st : ES) (l : ET) (op : BOp) (rt : ET) : Bool :=
+  let p := order op l rt
+  let left := p.1
+  let right := p.2
+  let spill := right == .acc
+  let right2 : ET := if spill then .tmp else right
+  let accL : Bool := if spill then false else st.acc
+  let tmp1 : Bool := if spill then true else st.tmpU
+  let save := accL && left != .acc
+  let tmp2 : Bool := if left == .tmp then false else tmp1
+  let tmp3 : Bool := if right2 == .tmp then false else tmp2
+  !(left.isConst && right.isConst) &&                                       -- folded by the generator: outside the fragment
+  !(left.isReg && op == .bor && right == .atm (.of (.const 0))) &&          -- `X | 0`: no code, outside
+  !(right == .acc && st.tmpU) &&                                            -- "Code too complex": the scratch cell is taken
+  !(right2.isReg && tmp2) &&                                                -- a register operand needs the scratch cell
+  !(save && tmp3)                                                           -- the result cannot be handed over
+
+def plan (st : ES) (l : ET) (op : BOp) (rt : ET) : Option Plan :=
+  if planOK st l op rt then some (mkPlan st l op rt) else none
+
+/-- the left operand into the accumulator -/
+def loadLeft {α : Type} (none : α) (r : Atom → α) : ET → List (Mn × α)
+  | .atm a => loadA none r a
+  | .tmp => [(.LDA, r tmp)]
+  | .acc => []
+
+/-- the code of a plan -/
+def planCode {α : Type} (none : α) (r : Atom → α) (op : BOp) (p : Plan) : List (Mn × α) :=
+  (if p.spill then [(.STA, r tmp)] else []) ++
+  (if p.save then [(.PHA, none)] else []) ++
+  loadLeft none r p.left ++
+  opCode none r op (opnd p.right2) ++
+  (if p.save then [(.STA, r tmp), (.PLA, none)] else [])
+
+/-- generate_arithm: (code, where the result is, generator state) -/
+def arithm {α : Type} (none : α) (r : Atom → α) (st : ES) (l : ET) (op : BOp) (rt : ET) : Option (List (Mn × α) × ET × ES) :=
+  (plan st l op rt).map fun p => (planCode none r op p, if p.save then .tmp else .acc, p.st')
+
+def genE {α : Type} (none : α) (r : Atom → α) : ES → GExpr → Option (List (Mn × α) × ET × ES)
+  | st, .atom a => some ([], .atm a, st)
+  | st, .bin l op rr =>
+    match genE none r st l with
+    | Option.none => Option.none
+    | some (cl, tl, s1) =>
+      match genE none r s1 rr with
+      | Option.none => Option.none
+      | some (cr, tr, s2) =>
+        match arithm none r s2 tl op tr with
+        | Option.none => Option.none
+        | some (ca, t, s3) => some (cl ++ cr ++ ca, t, s3)
+
+/-- the statement `v = e` for a compound `e` the generator accepts -/
+def exprCode {α : Type} (none : α) (r : Atom → α) (v : LV) (e : GExpr) : List (Mn × α) :=
+  match genE none r {} e with
+  | some (c, .acc, _) => c ++ storeA none r v
+  | _ => []
+
+def GExpr.ok (e : GExpr) : Bool :=
+  match e with
+  | .atom _ => false
+  | _ => match genE () (fun _ => ()) {} e with
+    | some (_, .acc, _) => true
+    | _ => false
+
+
+def RInFragment : RStmt → Bool
+  | .lin _ e => e.ok
+  | .expr _ e => e.ok
+  | .bin _ _ a b => !(a.isConst && b.isConst)
+  | .binW _ _ a b => !(a.isConst && b.isConst)
+  | .chain _ a _ b1 ops => !(a.isConst && b1.isConst) && !ops.isEmpty
+  | _ => true
+
 def rtemplate {α : Type} (none : α) (r : Atom → α) (zp : String → Bool) : RStmt → List (Mn × α)
+  | .expr v e => exprCode none r v e
   | .lin v e => linCode none r e ++ storeA none r v
   | .chain v a op1 b1 ops =>
     let p := rordered op1 a b1
@@ -280,6 +418,7 @@ def flagsAfter (zp : String → Bool) (fl : Option FRef) : RStmt → Option FRef
   | .inc v | .dec v => some v
   | .chain v _ _ _ _ => some v
   | .lin v _ => some v
+  | .expr v e => if e.ok then some v else fl
   | .asgW _ _ | .binW _ _ _ _ | .opasgW _ _ _ => none
 
 /-! ### what the source prescribes, on memory and the two register variables -/
@@ -288,6 +427,7 @@ structure SrcSt where
   mem : Mem
   x : Byte
   y : Byte
+  sp : Byte              -- the stack pointer: part of the source-visible state since stage 10 (the stack page holds spills)
 
 def rval (L : Layout) (σ : SrcSt) : RA → Byte
   | .of a => val L σ.mem σ.x σ.y a
@@ -356,7 +496,59 @@ def linVal (L : Layout) : SrcSt → LExpr → SrcSt × Byte
       (σ2, rval L σ2 x - r.2)
     else (tmpWrite L r.1 op x, op.apply r.2 (rval L r.1 x))
 
+/-! ### what the code does: memory (scratch cell, stack page), stack pointer, accumulator -/
+
+def pushS (σ : SrcSt) (v : Byte) : SrcSt :=
+  { σ with mem := σ.mem.write (Cpu.stackAddr σ.sp) v, sp := σ.sp - 1 }
+
+def pullS (σ : SrcSt) : SrcSt × Byte :=
+  ({ σ with sp := σ.sp + 1 }, σ.mem.read (Cpu.stackAddr (σ.sp + 1)))
+
+def setTmp (L : Layout) (σ : SrcSt) (v : Byte) : SrcSt := { σ with mem := σ.mem.write (L "cctmp") v }
+
+/-- the value the left operand brings into the accumulator (`a` = what is there) -/
+def leftVal (L : Layout) (σ : SrcSt) (a : Byte) : ET → Byte
+  | .atm x => rval L σ x
+  | .tmp => σ.mem.read (L "cctmp")
+  | .acc => a
+
+/-- a plan on the source-level state and the accumulator -/
+def evalPlan (L : Layout) (σ : SrcSt) (a : Byte) (op : BOp) (p : Plan) : SrcSt × Byte :=
+  let σ0 := if p.spill then setTmp L σ a else σ
+  let σ1 := if p.save then pushS σ0 a else σ0
+  let a1 : Byte := leftVal L σ1 a p.left
+  let σ2 := tmpWrite L σ1 op (opnd p.right2)
+  let a2 := op.apply a1 (rval L σ1 (opnd p.right2))
+  if p.save then pullS (setTmp L σ2 a2) else (σ2, a2)
+
+def evalArithm (L : Layout) (σ : SrcSt) (a : Byte) (st : ES) (l : ET) (op : BOp) (rt : ET) : Option ((SrcSt × Byte) × ET × ES) :=
+  (plan st l op rt).map fun p => (evalPlan L σ a op p, if p.save then .tmp else .acc, p.st')
+
+def evalE (L : Layout) : SrcSt → Byte → ES → GExpr → Option ((SrcSt × Byte) × ET × ES)
+  | σ, a, st, .atom x => some ((σ, a), .atm x, st)
+  | σ, a, st, .bin l op rr =>
+    match evalE L σ a st l with
+    | none => none
+    | some ((σ1, a1), tl, s1) =>
+      match evalE L σ1 a1 s1 rr with
+      | none => none
+      | some ((σ2, a2), tr, s2) => evalArithm L σ2 a2 s2 tl op tr
+
+/-- the plain value -/
+def pureE (L : Layout) (σ : SrcSt) : GExpr → Byte
+  | .atom x => rval L σ x
+  | .bin l op r => op.apply (pureE L σ l) (pureE L σ r)
+
+/-- `v = e`: the accumulator at the start does not matter (`evalE_acc_irrelevant`) -/
+def exprSpec (L : Layout) (σ : SrcSt) (v : LV) (e : GExpr) : SrcSt :=
+  if e.ok then
+    match evalE L σ 0 {} e with
+    | some ((σ', a'), _, _) => wr L σ' v a'
+    | none => σ
+  else σ
+
 def rspec (L : Layout) (σ : SrcSt) : RStmt → SrcSt
+  | .expr v e => exprSpec L σ v e
   | .lin v e => let r := linVal L σ e; wr L r.1 v r.2
   | .chain v a op1 b1 ops => chainSpec L σ v a op1 b1 ops
   | .asgW s a => asgWSpec L σ s a
